@@ -78,7 +78,8 @@ def run(ctx):
     c14.check_get_av(ctx)
     # the composite (interp) curve: each filter wavelength paired with that filter's aperture
     c13.check_variable(ctx, increasing=False)          # the packages plotted may store their apertures in any order (C13 itself promises increasing tables)
-    c13.check_sed_interpolate(ctx)          # the display modes other than 'interp' draw SED.interpolate at the filters' apertures
+    c13.check_sed_interpolate(ctx)
+    common.check_shared_class_state(ctx, [('sed.cube', 'BaseCube'), ('sed.cube', 'SEDCube'), ('sed.sed', 'SED'), ('extinction.extinction', 'Extinction'), ('fit_info', 'FitInfo')])          # the display modes other than 'interp' draw SED.interpolate at the filters' apertures
     from . import c12
     c12.check_get_sed(ctx)           # 'draws that model's SED': the cube slice found by name on the full model axis
 
